@@ -34,6 +34,8 @@ struct thread_pool_thread_s;
 extern struct thread_pool_thread_s *tpt_get_current(void);
 void *tp_cur_tpt(void) { return ((void *)tpt_get_current()); }
 int g_close_unknown_passthrough;
+__thread int tp_post_write_pause_us;
+__thread int tp_vp1_pause_us;
 
 /* ---------------- log ---------------- */
 /* Four log buffers used round-robin, one per epoch (= per tp_harness_reset): a thread that reserved a slot just before a
@@ -109,6 +111,8 @@ lcb_verif_point(int id, const void *obj) {
 	if (id < 0 || id >= 32)
 		return;
 	n = atomic_fetch_add(&g_vp_hits[id], 1);
+	if (1 == id && 0 != tp_vp1_pause_us) /* a scenario holds this thread between the destination-state test and the queue write */
+		usleep((useconds_t)tp_vp1_pause_us);
 	if (0 == atomic_load(&g_armed) || 0 == g_plans.plan_len || n >= 48)
 		return;
 	b = g_plans.plan[((uint32_t)id * 7u + n) % g_plans.plan_len];
@@ -308,7 +312,14 @@ verif_write(int fd, const void *buf, size_t n) {
 		errno = e;
 		return (-1);
 	}
-	return (write(fd, buf, n));
+	{
+		ssize_t rc = write(fd, buf, n);
+		/* a sender may be held right after its packet reached the queue (set per thread by a scenario): whatever the
+		 * library does between the write and its return happens that much later than the receiver's work */
+		if (rc > 0 && 0 != tp_post_write_pause_us)
+			usleep((useconds_t)tp_post_write_pause_us);
+		return (rc);
+	}
 }
 
 ssize_t
